@@ -36,6 +36,28 @@ enum Kind {
     /// (attached before anything is produced) and a late one must receive the same frames
     SessionLogFailure,
     TaskLogFailure,
+    /// the same producers, but the client reads NOTHING between the attach and the end of
+    /// production: history non-empty and live frames pending when the body is first polled
+    SessionLazyReader,
+    TaskLazyReader,
+    ThreadLazyReader,
+    /// the thread stream while ANOTHER, longer thread is appended to as well (the continuity
+    /// channel is shared by all threads; the other thread's frames carry higher seqs)
+    ThreadBesideAnother,
+}
+
+/// The producer set-up a kind shares with another kind.
+fn base(kind: Kind) -> Kind {
+    match kind {
+        Kind::SessionLazyReader => Kind::Session,
+        Kind::TaskLazyReader => Kind::Task,
+        Kind::ThreadLazyReader => Kind::Thread,
+        k => k,
+    }
+}
+
+fn lazy_reader(kind: Kind) -> bool {
+    matches!(kind, Kind::SessionLazyReader | Kind::TaskLazyReader | Kind::ThreadLazyReader)
 }
 
 struct World {
@@ -100,11 +122,12 @@ fn drain_body_now(body: &mut Body) -> Vec<(u64, String)> {
 }
 
 fn filter_for(kind: Kind) -> Vec<&'static str> {
-    match kind {
+    match base(kind) {
+        Kind::SessionLazyReader | Kind::TaskLazyReader | Kind::ThreadLazyReader => unreachable!(),
         Kind::Session | Kind::SessionLogFailure => vec!["sess.publish", "sess.buffer", "sse.session.*", "sub.*", "start"],
         Kind::SessionTool => vec!["sess.publish", "sess.buffer", "sse.session.*", "sub.*", "start", "log.appended"],
         Kind::Task | Kind::TaskTwoEmitters | Kind::TaskLogFailure => vec!["task.publish", "task.buffer", "task.seq", "sse.task.*", "sub.*", "start"],
-        Kind::Thread | Kind::ThreadColdCache => vec![
+        Kind::Thread | Kind::ThreadColdCache | Kind::ThreadBesideAnother => vec![
             "cont.publish",
             "sse.thread.*",
             "sub.*",
@@ -120,7 +143,7 @@ fn filter_for(kind: Kind) -> Vec<&'static str> {
 }
 
 /// Subscriber: the real handler via the router, then the body polled frame by frame.
-fn subscriber(router: axum::Router, uri: String, sink: Arc<Mutex<Vec<(u64, String)>>>, status: Arc<Mutex<Option<u16>>>, rt: Arc<tokio::runtime::Runtime>, expected: usize, producers: usize) -> ActorBody {
+fn subscriber(router: axum::Router, uri: String, sink: Arc<Mutex<Vec<(u64, String)>>>, status: Arc<Mutex<Option<u16>>>, rt: Arc<tokio::runtime::Runtime>, expected: usize, producers: usize, lazy: bool) -> ActorBody {
     Box::new(move |ctx: &ActorCtx| {
         let _g = rt.enter();
         let req = Request::builder().uri(uri).body(Body::empty()).unwrap();
@@ -136,6 +159,9 @@ fn subscriber(router: axum::Router, uri: String, sink: Arc<Mutex<Vec<(u64, Strin
         // moment), then once more after the producer has finished (drain).
         for phase in 0..2 {
             loop {
+                if lazy && phase == 0 {
+                    break; // a client that reads nothing until production is over
+                }
                 let polled = {
                     struct PollFrame<'a>(&'a mut Body);
                     impl std::future::Future for PollFrame<'_> {
@@ -191,7 +217,31 @@ fn make_world(kind: Kind, rt: &Arc<tokio::runtime::Runtime>, subscribers: usize)
     let mut statuses = Vec::new();
     let mut actors: Vec<ActorBody> = Vec::new();
     let (stream_id, uri, expected_frames): (String, String, usize);
+    let lazy_kind = kind;
+    let kind = base(kind);
     match kind {
+        Kind::SessionLazyReader | Kind::TaskLazyReader | Kind::ThreadLazyReader => unreachable!(),
+        Kind::ThreadBesideAnother => {
+            let store = fx.store();
+            let thread = store.ensure_default().expect("thread");
+            store.append_message(&thread, "u".into(), "o".into(), "m0".into()).expect("m0");
+            // a second thread, already longer than the subscribed one will ever be
+            let (other, _, _) = store.branch(&thread, None, None, None, "u".into(), "o".into()).expect("other thread");
+            for i in 0..4 {
+                store.append_message(&other, "u".into(), "o".into(), format!("x{i}")).expect("x");
+            }
+            let store2 = store.clone();
+            let th = thread.clone();
+            actors.push(Box::new(move |_ctx: &ActorCtx| {
+                let _ = store2.append_message(&other, "u".into(), "o".into(), "x4".into());
+                for i in 1..=2 {
+                    let _ = store2.append_message(&th, "u".into(), "o".into(), format!("m{i}"));
+                }
+            }));
+            stream_id = thread.clone();
+            uri = format!("/threads/{thread}/events");
+            expected_frames = 4; // created, m0, m1, m2
+        }
         Kind::Session | Kind::SessionLogFailure | Kind::SessionTool => {
             let resp = rt.block_on(router.clone().oneshot(Request::builder().method("POST").uri("/sessions").body(Body::empty()).unwrap())).unwrap();
             let bytes = rt.block_on(http_body_util::BodyExt::collect(resp.into_body())).unwrap().to_bytes();
@@ -289,7 +339,7 @@ fn make_world(kind: Kind, rt: &Arc<tokio::runtime::Runtime>, subscribers: usize)
         let status = Arc::new(Mutex::new(None));
         received.push(sink.clone());
         statuses.push(status.clone());
-        actors.push(subscriber(router.clone(), uri.clone(), sink, status, rt.clone(), expected_frames, producers));
+        actors.push(subscriber(router.clone(), uri.clone(), sink, status, rt.clone(), expected_frames, producers, lazy_reader(lazy_kind)));
     }
     (World { fx, stream_id, received, statuses, expected_frames, early: Mutex::new(early) }, actors)
 }
@@ -546,6 +596,10 @@ pub fn replay(report: &Report, case: &Value) {
         "c06.SessionLogFailure" => Kind::SessionLogFailure,
         "c06.TaskLogFailure" => Kind::TaskLogFailure,
         "c06.Thread" => Kind::Thread,
+        "c06.SessionLazyReader" => Kind::SessionLazyReader,
+        "c06.TaskLazyReader" => Kind::TaskLazyReader,
+        "c06.ThreadLazyReader" => Kind::ThreadLazyReader,
+        "c06.ThreadBesideAnother" => Kind::ThreadBesideAnother,
         _ => Kind::ThreadColdCache,
     };
     let subscribers = case["subscribers"].as_u64().unwrap_or(1) as usize;
@@ -610,6 +664,10 @@ pub fn run(opts: Opts) -> i32 {
         let b = tier.pick(2, 3);
         scope.spawn(move || run_harness(report, Kind::TaskTwoEmitters, 1, b));
         // environment answer "error": the second log append of the producer fails
+        // a client that reads nothing while the stream is produced; a thread beside another thread
+        for kind in [Kind::SessionLazyReader, Kind::TaskLazyReader, Kind::ThreadLazyReader, Kind::ThreadBesideAnother] {
+            scope.spawn(move || run_harness(report, kind, 1, usize::MAX));
+        }
         scope.spawn(move || run_harness(report, Kind::SessionLogFailure, 1, usize::MAX));
         scope.spawn(move || run_harness(report, Kind::TaskLogFailure, 1, usize::MAX));
     });
